@@ -193,6 +193,26 @@ Theorem C12_set_emit_false_silent :
 Proof. exact @set_emit_false_silent. Qed.
 Print Assumptions C12_set_emit_false_silent.
 
+(* units applied: a quantity variable is written in its DECLARED unit - the emitted magnitude times the declared unit equals the stored quantity, whatever unit the value was supplied in (exact conversions) *)
+Theorem C12_emit_units :
+  forall m vs ds q : Z,
+         ds <> 0 -> (ds | m * vs) -> emit_data (EQty m vs ds true) = Some (Lf q) -> q * ds = m * vs.
+Proof. exact @emit_units. Qed.
+Print Assumptions C12_emit_units.
+
+(* ... equal quantities supplied in different units give the same row entry *)
+Theorem C12_emit_units_same_quantity :
+  forall (m1 vs1 m2 vs2 ds : Z) (e : bool),
+         m1 * vs1 = m2 * vs2 -> emit_data (EQty m1 vs1 ds e) = emit_data (EQty m2 vs2 ds e).
+Proof. exact @emit_units_same_quantity. Qed.
+Print Assumptions C12_emit_units_same_quantity.
+
+(* a quantity variable that is not flagged is not emitted *)
+Theorem C12_unflagged_quantity_not_emitted :
+  forall m vs ds : Z, emit_data (EQty m vs ds false) = None.
+Proof. exact @unflagged_quantity_not_emitted. Qed.
+Print Assumptions C12_unflagged_quantity_not_emitted.
+
 
 (* ---- non-vacuity: a reachable state of a concrete composite meets the hypotheses ---- *)
 Definition ex_specs : list (pid * pspec) :=
@@ -204,4 +224,8 @@ Example ex_run_ok : exists s', ex_run = (Some s', true) /\ gt _ _ _ s' = 88 /\ c
 Proof. eexists. split; [vm_compute; reflexivity|]. repeat split; vm_compute; try reflexivity. lia. Qed.
 Example ex_commit_nodup : forall s ps us, NoDup ps -> NoDup (snd (ccommit s ps us)).
 Proof. intros s ps us H. exact H. Qed.
+
+(* 3 kg supplied for a variable declared in g: the row says 3000 *)
+Example ex_units : emit_data (EQty 3 1000000 1000 true) = Some (Lf 3000%Z) /\ (1000 | 3 * 1000000)%Z.
+Proof. split; [reflexivity|exists 3000%Z; reflexivity]. Qed.
 
